@@ -19,6 +19,7 @@ Export ListNotations.
 Local Open Scope N_scope.
 
 Definition En := Build_entry.
+Definition Rq := Build_req.
 
 Record obs := { o_opened : bool; o_reads : list (N * obsv); o_stages : list (list (N * obsv)) }.
 Definition Ob := Build_obs.
